@@ -385,6 +385,14 @@ func (g *Generator) generateWithoutSaving(parents []*theTypeInfo, t reflect.Type
 						return nil, err
 					}
 				}
+				if ref != nil && fieldInfo.JSONString && isQuotedByStringOption(fType) {
+					// `json:",string"`: encoding/json writes this number, boolean or string inside a JSON string
+					quoted := openapi3.NewStringSchema()
+					if ref.Value != nil {
+						quoted.Nullable = ref.Value.Nullable
+					}
+					ref = openapi3.NewSchemaRef("", quoted)
+				}
 				if ref != nil {
 					g.SchemaRefs[ref]++
 					schema.WithPropertyRef(fieldName, ref)
@@ -481,6 +489,22 @@ func (g *Generator) generateCycleSchemaRef(t reflect.Type, schema *openapi3.Sche
 
 	g.componentSchemaRefs[typeName] = struct{}{}
 	return openapi3.NewSchemaRef(fmt.Sprintf("#/components/schemas/%s", typeName), schema)
+}
+
+// isQuotedByStringOption tells whether the ",string" option of a json tag applies to fields of
+// type t: strings, floating point numbers, integers and booleans, also behind a pointer.
+func isQuotedByStringOption(t reflect.Type) bool {
+	if t.Kind() == reflect.Ptr {
+		t = t.Elem()
+	}
+	switch t.Kind() {
+	case reflect.Bool, reflect.String,
+		reflect.Int, reflect.Int8, reflect.Int16, reflect.Int32, reflect.Int64,
+		reflect.Uint, reflect.Uint8, reflect.Uint16, reflect.Uint32, reflect.Uint64, reflect.Uintptr,
+		reflect.Float32, reflect.Float64:
+		return true
+	}
+	return false
 }
 
 var RefSchemaRef = openapi3.NewSchemaRef("Ref",
